@@ -22,7 +22,7 @@ FACTORS = [
     ("split_threshold", [1.0, 0.2]),
     ("metric", ["ess", "vv"]),
     ("steps", ["default", "short"]),
-    ("likelihood", ["scalar", "vectorized", "blobs"]),
+    ("likelihood", ["scalar", "vectorized", "blobs", "vectorized-readonly"]),
     ("boundaries", ["none", "periodic", "reflective", "mixed", "empty-lists", "one-empty"]),
     ("pool", [None, 1, 2]),
     ("save_every", [None, 1, 3]),
@@ -39,6 +39,12 @@ def ll(x):
 
 def llv(x):
     return -0.5 * np.sum((x - 0.5) ** 2, axis=1) / 0.3
+
+
+def llv_ro(x):
+    out = llv(x)
+    out.setflags(write=False)
+    return out
 
 
 def llb(x):
@@ -84,6 +90,9 @@ def build(cfg, out):
     like = ll
     if cfg["likelihood"] == "vectorized":
         like = llv
+        kw["vectorize"] = True
+    elif cfg["likelihood"] == "vectorized-readonly":
+        like = llv_ro
         kw["vectorize"] = True
     elif cfg["likelihood"] == "blobs":
         like = llb
